@@ -37,6 +37,7 @@ struct Case {
     unsigned mem_rsel = 0;    // remainder selector
     unsigned mem_raw = 0;     // 16 raw bits
     bool mem_safe_only = false; // big cases: keep the remainder large enough that no quadratic fall-back can happen
+    int geo_k = 0;              // big cases with geometrically shrinking buckets: alphabet size (0 = all bytes)
     // the collection
     std::vector<std::string> strs; // all reps except suffix
     std::string text;              // suffix rep
